@@ -7,8 +7,9 @@ import re
 import framework as fw
 
 TIE = []
-PROPS = ["Nsq.Props.C20N2NTool"]
+PROPS = ["Nsq.Props.C20N2NTool", "Nsq.Props.C20Refuse"]
 N2N_FILES = ["e8/n2n_giveup_test.go"]
+TONSQ_FILES = ["e8/tonsq_refuse_test.go"]
 GIVEUP_KEY = "gives-up-after-max-attempts"
 
 
@@ -213,6 +214,33 @@ def giveup_n2n(ctx, binp, corr_broken):
                           "tool=nsq_to_nsq max_attempts=%d attempts=%d destination=E_PUB_FAILED\n" % (mx, att))
 
 
+# ------------------------------------------------------------------ C14: to_nsq against a destination that refuses a record
+
+def tonsq_refuse(ctx, b_tonsq, corr_broken):
+    tool = os.path.join(ctx.work, "to_nsq_real")          # built by c20_opts.tonsq_e2e from the tree under test
+    if not os.path.exists(tool):
+        import c20_opts
+        tool = c20_opts.build_tool(ctx, "apps/to_nsq", "to_nsq_real")
+        if not tool:
+            return
+    out = os.path.join(ctx.work, "tonsq_refuse")
+    os.makedirs(out, exist_ok=True)
+    rc, log = ctx.run_cmd([b_tonsq, "-test.run", "^TestVerifToNsqRefuse$", "-test.count=1"], timeout=ctx.budget(300, 1200),
+                          env={"VERIF_SEED": ctx.seed, "VERIF_N": ctx.budget(30, 400), "VERIF_OUT": out, "VF_E8_TONSQ_BIN": tool})
+    for l in log.splitlines():
+        if l.startswith("ORACLE-FAIL"):
+            what = l[len("ORACLE-FAIL "):]
+            key = "to_nsq-refusal:" + re.sub(r"[0-9a-f]{6,}|\d+", "N", what)[:60]
+            ctx.violation(key, "to_nsq (real binary, refusing destination): " + what[:600], "seed %s\n%s\n" % (ctx.seed, what))
+    if "ORACLE-DONE" not in log:
+        ctx.log("to_nsq refusal harness failed:\n%s" % log[-1500:])
+        corr_broken.append("to_nsq refusal harness exit %s" % rc)
+        return
+    ctx.corr.setdefault("audit7_b", {})["tonsq_refuse_1MiB"] = [l for l in log.splitlines() if l.startswith("REFUSE-BIG")]
+    _corr(ctx, out, "tonsq_refuse", "to_nsq refusal (Nsq.Model.ToNsqRefuse.run)", corr_broken, log,
+          nontrivial=lambda o, i: i.startswith("exit=1"))
+
+
 def declare(ctx):
     ctx.trusted += [
         "audit round 7: go-nsq Producer fails every transaction of a dropped connection and answers transactions of one "
@@ -220,6 +248,9 @@ def declare(ctx):
         "independent oracles (JSON stage over the input body, query escaping)",
     ]
     ctx.assumptions += [
+        "to_nsq_records / to_nsq_records_if_accepted: every destination acknowledges every record (otherwise the tool is "
+        "fail-stop: exit status 1 at the first refused record, later records are not published: "
+        "to_nsq_published_until_refusal, to_nsq_records_unconditional_false; replayed on the real binary)",
         "n2n_tool_fin_only_after_accept_partial: the consumer library never gave up on a delivery of the history "
         "(max_attempts = 0 or every attempts <= max_attempts); refuted otherwise (n2n_tool_fin_only_after_accept_false, "
         "replayed on the real Consumer by TestVerifN2NGiveUp)",
